@@ -220,8 +220,10 @@ def run(P, R):
     R.check(r3, ok, 'the evaluation is wrapped by except ApplicationStatusParseError', 'evaluator-catch', uf.loc(),
             'update_status_formula does not evaluate inside try/except ApplicationStatusParseError')
     hnd = [h for h in own_nodes(uf.node) if isinstance(h, ast.ExceptHandler)]
-    ok = len(hnd) == 1 and any(isinstance(a, ast.Assign) and ast.unparse(a.targets[0]) == 'self.major_failure'
-                               and ast.unparse(a.value) == 'True' for s in hnd[0].body for a in ast.walk(s))
+    # (every handler around the evaluation - the parse error, and any other a later version tolerates - is a major failure)
+    ok = len(hnd) >= 1 and any(h.type is not None and 'ApplicationStatusParseError' in ast.unparse(h.type) for h in hnd) and \
+        all(any(isinstance(a, ast.Assign) and ast.unparse(a.targets[0]) == 'self.major_failure'
+                and ast.unparse(a.value) == 'True' for s in h.body for a in ast.walk(s)) for h in hnd)
     R.check(r3, ok, 'a refused formula is a major failure', 'evaluator-major', uf.loc(),
             'the handler of ApplicationStatusParseError does not set major_failure')
 
